@@ -16,7 +16,7 @@ from native.bounded._common import FLAGS, Checker
 
 BOUND = ("32 (x3 thorough) normalised monotonic circuits: 1..3 variables with ids drawn from 0..6 (non-contiguous scopes included), categorical inputs "
          "with 2..3 states and 1..3 units (softmax probabilities), Hadamard or Kronecker products, sum layers of arity 1..3 with softmax weights (dense or "
-         "mixing), optional second sum level, one output unit; four (fold, optimize) settings rotating; plus 6 circuits whose sum weight is a Kronecker product of softmax matrices, compiled with optimize=True (tensor-dot layers), fold off / on; 20000 samples per circuit, torch seed fixed by "
+         "mixing), optional second sum level, one output unit; four (fold, optimize) settings rotating; plus 6 circuits whose sum weight is a Kronecker product of softmax matrices, compiled with optimize=True (tensor-dot layers), fold off / on, and 2 circuits with a Kronecker product of arity 3 (Tucker layer of arity 3); 20000 samples per circuit, torch seed fixed by "
          "VERIF_SEED; cell threshold |freq - p| <= 6.5 sqrt(p(1-p)/N) + 2/N (false alarm < 1e-8 per run)")
 RULE = "one case = (circuit index, fold, optimize, clause); distinct by that tuple"
 N = 20000
@@ -90,6 +90,14 @@ def _kron_weight_circuits():
             desc = {"vars": vs, "domains": dom, "units": K, "arity": 1, "product": "hadamard", "mixing": False, "two_levels": Ko > 1,
                     "sum_weight": f"kronecker{sa}x{sb}"}
             out.append((Circuit(layers, in_layers, [o]), vs, dom, desc))
+    # a Kronecker product of ARITY 3 with two units per input under a dense sum: fused into a Tucker layer of arity 3 by optimize=True
+    for _ in range(2):
+        vs, dom = [1, 3, 4], {1: 2, 3: 3, 4: 2}
+        ins = [CategoricalLayer(Scope([v]), 2, num_categories=dom[v]) for v in vs]
+        kl = KroneckerLayer(2, arity=3)
+        s1 = SumLayer(8, 1, 1, weight=_softmax_w((1, 8)))
+        desc = {"vars": vs, "domains": dom, "units": 2, "arity": 1, "product": "kronecker3", "mixing": False, "two_levels": False, "sum_weight": "softmax"}
+        out.append((Circuit(ins + [kl, s1], {kl: ins, s1: [kl]}, [s1]), vs, dom, desc))
     return out
 
 
